@@ -785,6 +785,9 @@ def ensemble_specs(tier):
         # which an ideal gas cannot tell), and the SAME simulation object first used at another temperature
         ("gc", {"species": "Ar", "lam": 6.0, "T": 300.0, "vol": 1000.0, "op": "translation", "n0": 6, "vacc": 0.5,
                 "T0": 650.0}, 12000 if q else 150000),
+        # an EMPTY box and the driver's default number of cycles per step: the gas has to appear all the same
+        ("gc", {"species": "Ar", "lam": 3.0, "T": 300.0, "vol": 1000.0, "op": "translation", "n0": 0, "default_cycles": True},
+         4000 if q else 40000),
     ]
     if not q:
         specs += [
@@ -874,7 +877,7 @@ def run_ensemble(key, p, steps, seed):
         c = {"sys": "gc", "calc": "zero", "T": p["T"], "species": p["species"], "mu": mu, "op": p["op"], "pbc": True,
              "cell": cell.ravel().tolist(), "n": p["n0"], "nframe": p.get("nframe", 0), "gseed": seed ^ 0x6C}
         state = initial_state(c)
-        mc = make_sim(c, state, seed, max_cycles=1)
+        mc = make_sim(c, state, seed, max_cycles=None if p.get("default_cycles") else 1)
         if "vacc" in p:
             mc.accessible_volume = vacc
         if "T0" in p:
